@@ -344,7 +344,7 @@ impl Wal {
         let segment_num = Self::find_latest_segment(dir)?;
         let segment_path = dir.join(format!("wal.{:06}", segment_num));
 
-        let segment = if segment_path.exists() {
+        let mut segment = if segment_path.exists() {
             WalSegment::open(&segment_path, segment_num)?
         } else {
             WalSegment::create(&segment_path, segment_num)?
@@ -354,21 +354,54 @@ impl Wal {
         let mut salt1 = Self::generate_salt();
         let mut salt2 = Self::generate_salt();
 
-        if segment_path.exists() {
-            let mut scan_segment = WalSegment::open(&segment_path, segment_num)?;
+        // index every existing segment (read_page must keep finding pages whose latest frame
+        // lives in a closed segment), oldest first so that later frames win; a segment that
+        // does not end cleanly ends the log: frames behind it are not part of it
+        let mut valid_end = 0u64;
+        let mut log_ended = false;
+        for seq in 1..=segment_num {
+            let path = dir.join(format!("wal.{:06}", seq));
+            if !path.exists() {
+                continue;
+            }
+            let mut scan_segment = WalSegment::open(&path, seq)?;
+            let segment_len = scan_segment.offset();
             let mut offset = 0u64;
             let mut first_frame = true;
 
             while let Ok((header, _)) = scan_segment.read_frame() {
-                if first_frame {
-                    salt1 = header.salt1;
-                    salt2 = header.salt2;
-                    first_frame = false;
+                if !log_ended {
+                    if first_frame {
+                        salt1 = header.salt1;
+                        salt2 = header.salt2;
+                        first_frame = false;
+                    }
+                    page_index.insert((header.file_id, header.page_no), (seq, offset));
                 }
-                page_index.insert((header.file_id, header.page_no), (segment_num, offset));
                 offset += (WAL_FRAME_HEADER_SIZE + PAGE_SIZE) as u64;
             }
+            if seq == segment_num {
+                valid_end = offset;
+            }
+            if offset != segment_len {
+                log_ended = true;
+            }
         }
+
+        // append after the last valid frame of the current segment: WalSegment::open leaves the
+        // file cursor at 0 while reporting offset = file length, so the next write would
+        // overwrite frame 0; a torn tail behind the valid frames is cut off
+        segment
+            .writer
+            .get_mut()
+            .set_len(valid_end)
+            .wrap_err("failed to cut torn tail of WAL segment")?;
+        segment
+            .writer
+            .get_mut()
+            .seek(SeekFrom::Start(valid_end))
+            .wrap_err("failed to seek to end of WAL segment")?;
+        segment.offset = valid_end;
 
         let frame_count = page_index.len() as u32;
 
